@@ -473,6 +473,36 @@ class _Canon(ast.NodeTransformer):
                          and not f.decorator_list} - self._props - self._stored_attrs
         return self.generic_visit(n)
 
+    def _constant_return_guards(self, block: list) -> None:
+        """`if C: BODY else: return K` (K a constant, BODY not ending in a jump of its own) is the guard `if not C: return K` followed by
+        BODY; `if A or B: return K` is `if A: return K` / `if B: return K`.  One answer per failed comparison, whatever the nesting."""
+        i = 0
+        while i < len(block):
+            st = block[i]
+            for fld in ("body", "orelse", "finalbody"):
+                b = getattr(st, fld, None)
+                if isinstance(b, list) and b and isinstance(b[0], ast.stmt) and not isinstance(st, (ast.FunctionDef, ast.AsyncFunctionDef, ast.ClassDef)):
+                    self._constant_return_guards(b)
+            if isinstance(st, ast.Try):
+                for h in st.handlers:
+                    self._constant_return_guards(h.body)
+            if isinstance(st, ast.If):
+                def const_ret(b):
+                    return len(b) == 1 and isinstance(b[0], ast.Return) and isinstance(b[0].value, ast.Constant)
+                if st.orelse and const_ret(st.orelse) and not const_ret(st.body) and not isinstance(st.body[-1], (ast.Return, ast.Raise, ast.Continue, ast.Break)) \
+                        and not (len(st.orelse) == 1 and isinstance(st.orelse[0], ast.If)):
+                    neg = self.visit_UnaryOp(ast.copy_location(ast.UnaryOp(op=ast.Not(), operand=st.test), st.test))
+                    guard = ast.copy_location(ast.If(test=neg, body=st.orelse, orelse=[]), st)
+                    block[i:i + 1] = [guard] + st.body
+                    continue
+                if not st.orelse and const_ret(st.body) and isinstance(st.test, ast.BoolOp) and isinstance(st.test.op, ast.Or):
+                    block[i:i + 1] = [ast.copy_location(ast.If(test=v, body=[ast.copy_location(ast.Return(value=ast.Constant(value=st.body[0].value.value)), st.body[0])],
+                                                                   orelse=[]), st) for v in st.test.values]
+                    for g in block[i:i + len(st.test.values)]:
+                        ast.fix_missing_locations(g)
+                    continue
+            i += 1
+
     def _method_aliases(self, fn: ast.FunctionDef) -> None:
         """`f = self.m` (m a plain method of a class of this module, never stored to) ... `f(args)` is `self.m(args)`: a bound method
         named for the length of the function."""
@@ -520,6 +550,7 @@ class _Canon(ast.NodeTransformer):
         self.__dict__.setdefault("_fn_nodes", []).append(n)
         try:
             n = self.generic_visit(n)
+            self._constant_return_guards(n.body)
             self._method_aliases(n)
             self._field_copies(n, counts)
             self._default_fills(n)
